@@ -79,10 +79,6 @@ theorem DefaultsOkProps_mem {ps : Props} {req : List String} (h : DefaultsOkProp
 
 /-! ### association-list facts -/
 
-def lookupP (k : String) : Props → Option Schema
-  | [] => none
-  | (k', s) :: t => if k' = k then some s else lookupP k t
-
 theorem lookupP_mem {k : String} {s : Schema} {ps : Props} (h : lookupP k ps = some s) : (k, s) ∈ ps := by
   induction ps with
   | nil => simp [lookupP] at h
